@@ -30,6 +30,8 @@ pub fn run(name: &str, seed: u64, rest: &[String]) -> String {
         "blp_total" => blp_total(seed),
         "blp_mips" => blp_mips(),
         "wdt_roundtrip" => wdt_roundtrip(seed),
+        "ffi_cursor" => ffi_cursor(seed),
+        "m2_records" => m2_records(seed),
         "wdl_roundtrip" => wdl_roundtrip(seed),
         "blp_alpha" => blp_codec(seed, true),
         "blp_header" => blp_codec(seed, false),
@@ -760,7 +762,7 @@ fn wdl_roundtrip(seed: u64) -> String {
                 for (i, v) in t.outer_values.iter_mut().enumerate() { *v = (x as i16) * 100 + (y as i16) + i as i16; }
                 for (i, v) in t.inner_values.iter_mut().enumerate() { *v = -((x as i16) * 50 + (y as i16) * 3 + i as i16); }
                 f.heightmap_tiles.insert((x, y), t);
-                let mut h = HolesData::new(); h.hole_masks[(x % 16) as usize] = (y as u16) | 0x8000; f.holes_data.insert((x, y), h);
+                if ver.has_maho_chunk() { let mut h = HolesData::new(); h.hole_masks[(x % 16) as usize] = (y as u16) | 0x8000; f.holes_data.insert((x, y), h); }
             }
             let desc = format!("{} WDL with tiles {:?}", vname, tiles);
             let p = WdlParser::with_version(ver);
@@ -779,4 +781,134 @@ fn wdl_roundtrip(seed: u64) -> String {
         }
     }
     none("wdl_roundtrip", tried)
+}
+
+/// C API: reads/seeks with oversize requests, seeks beyond either end, forged/stale/null handles; the cursor
+/// stays inside the data, bytes and sizes equal the Rust API
+fn ffi_cursor(seed: u64) -> String {
+    use crate::storm_mod::storm::*;
+    use std::ffi::{c_void, CString};
+    use std::ptr;
+    let mut rng = Rng(seed ^ 0xFF1);
+    let dir = tempfile::tempdir().unwrap();
+    let path = dir.path().join("ffi.mpq");
+    let payload: Vec<u8> = (0..100u32).map(|i| (i * 7 + 3) as u8).collect();
+    if let Err(e) = wow_mpq::ArchiveBuilder::new().add_file_data(payload.clone(), "data\\blob.bin").build(&path) { return format!("{{\"oracle\":\"ffi_cursor\",\"error\":{:?}}}", e.to_string()); }
+    let mut tried = 0;
+    unsafe {
+        let c_path = CString::new(path.to_str().unwrap()).unwrap();
+        let mut archive: HANDLE = ptr::null_mut();
+        if !SFileOpenArchive(c_path.as_ptr(), 0, 0, &mut archive) { return fail("ffi_cursor", "SFileOpenArchive".into(), "false".into(), "true".into()); }
+        let mut file: HANDLE = ptr::null_mut();
+        if !SFileOpenFileEx(archive, c"data\\blob.bin".as_ptr(), 0, &mut file) { return fail("ffi_cursor", "SFileOpenFileEx".into(), "false".into(), "true".into()); }
+        let info_pos = |f: HANDLE| -> u64 { let mut pos = u64::MAX; let mut need = 0u32; SFileGetFileInfo(f, 10, &mut pos as *mut u64 as *mut c_void, 8, &mut need); pos };
+        let len = payload.len() as u64;
+        let mut model: u64 = 0;
+        let mut trace = Vec::new();
+        for _ in 0..300 {
+            tried += 1;
+            if rng.next() % 2 == 0 {
+                let req = [0u32, 1, 7, 40, 100, 101, 4096][(rng.next() % 7) as usize];
+                let mut buf = vec![0xAAu8; req as usize + 8];
+                let mut got = 12345u32;
+                let ok = SFileReadFile(file, buf.as_mut_ptr() as *mut c_void, req, &mut got, ptr::null_mut());
+                trace.push(format!("read({})", req));
+                let want = (req as u64).min(len - model);
+                if !ok || got as u64 != want { return fail("ffi_cursor", format!("{:?}", trace), format!("ok={} read={}", ok, got), format!("read={}", want)); }
+                if buf[..want as usize] != payload[model as usize..(model + want) as usize] { return fail("ffi_cursor", format!("{:?}", trace), "bytes differ from the Rust API".into(), "same bytes".into()); }
+                if buf[req as usize..].iter().any(|&b| b != 0xAA) { return fail("ffi_cursor", format!("{:?}", trace), "bytes written beyond the caller's buffer".into(), "untouched".into()); }
+                model += want;
+            } else {
+                let method = (rng.next() % 3) as u32;
+                let off = [0i32, 1, -1, 8, -8, 100, -100, 150, -150, i32::MAX, i32::MIN][(rng.next() % 11) as usize];
+                let r = SFileSetFilePointer(file, off, ptr::null_mut(), method);
+                trace.push(format!("seek({}, method {})", off, method));
+                let basep = match method { 0 => 0i64, 1 => model as i64, _ => len as i64 };
+                let t = basep + off as i64;
+                // the library clamps to the file size (and maps a negative target to the end of the data)
+                let want = if t < 0 || t as u64 > len { len } else { t as u64 };
+                if r as u64 != want { return fail("ffi_cursor", format!("{:?}", trace), format!("new position {}", r), format!("{}", want)); }
+                model = want;
+            }
+            let p = info_pos(file);
+            if p != model || p > len { return fail("ffi_cursor", format!("{:?}", trace), format!("cursor {} (file size {})", p, len), format!("cursor {}", model)); }
+        }
+        // forged / null / stale handles
+        let forged = ((file as usize) | (1usize << 32)) as HANDLE;
+        if SFileGetFileSize(forged, ptr::null_mut()) != 0xFFFFFFFF { return fail("ffi_cursor", format!("SFileGetFileSize(forged handle {:#x}) while {:#x} is live", forged as usize, file as usize), "accepted".into(), "INVALID_FILE_SIZE".into()); }
+        if SFileGetFileSize(ptr::null_mut(), ptr::null_mut()) != 0xFFFFFFFF { return fail("ffi_cursor", "SFileGetFileSize(NULL)".into(), "accepted".into(), "error".into()); }
+        let forged_a = ((archive as usize) | (1usize << 32)) as HANDLE;
+        if SFileHasFile(forged_a, c"data\\blob.bin".as_ptr()) { return fail("ffi_cursor", format!("SFileHasFile(forged archive handle {:#x})", forged_a as usize), "true".into(), "false".into()); }
+        SFileCloseFile(file);
+        if SFileGetFileSize(file, ptr::null_mut()) != 0xFFFFFFFF { return fail("ffi_cursor", "SFileGetFileSize(closed handle)".into(), "accepted".into(), "error".into()); }
+        SFileCloseArchive(archive);
+    }
+    none("ffi_cursor", tried)
+}
+
+/// M2 fixed-size records: write(parse(bytes)) reproduces the bytes and the record size matches the version
+fn m2_records(seed: u64) -> String {
+    use wow_m2::chunks::animation::M2Animation;
+    use wow_m2::chunks::bone::M2Bone;
+    use wow_m2::chunks::m2_track::M2Track;
+    use wow_m2::common::C3Vector;
+    let mut rng = Rng(seed ^ 0x4D32);
+    let mut tried = 0;
+    for round in 0..600 {
+        let version = [256u32, 257, 260, 263, 264, 272, 274][(rng.next() % 7) as usize];
+        let mut buf = rng.bytes(112);
+        // keep away from the documented normalisations: interpolation codes 0..=3, finite floats
+        let hdr = if version >= 260 { 16 } else { 12 };
+        let trk = if version < 264 { 28 } else { 20 };
+        for t in 0..3 { buf[hdr + t * trk] = (rng.next() % 4) as u8; buf[hdr + t * trk + 1] = 0; }
+        for f in 0..3 { buf[hdr + 3 * trk + f * 4 + 3] &= 0x3F; }
+        if round % 3 == 0 { buf[4] |= 0x80; buf[5] |= 0x01; buf[6] |= 0x04; } // flag bits without a named constant
+        if round % 5 == 0 && version < 264 { for b in &mut buf[hdr + 4..hdr + 8] { *b = 0; } buf[hdr + 8] = 0x40; } // ranges: count 0, offset != 0
+        tried += 1;
+        let b2 = buf.clone();
+        let r = catch(move || -> Result<(), String> {
+            let mut c = std::io::Cursor::new(&b2[..]);
+            let bone = M2Bone::parse(&mut c, version).map_err(|e| format!("parse: {}", e))?;
+            let n = c.position() as usize;
+            if n != hdr + 3 * trk + 12 { return Err(format!("consumed {} bytes", n)); }
+            let mut out = Vec::new();
+            bone.write(&mut out, version).map_err(|e| format!("write: {}", e))?;
+            if out != b2[..n] { let d = out.iter().zip(&b2[..n]).position(|(a, b)| a != b).unwrap_or(out.len().min(n)); return Err(format!("rewritten bytes differ at offset {} ({} vs {} bytes)", d, out.len(), n)); }
+            Ok(())
+        });
+        match r { Err(p) => return fail("m2_records", format!("M2Bone version {} bytes {:02x?}", version, &buf[..hdr + 3 * trk + 12]), format!("panic: {}", p), "round trip".into()),
+                  Ok(Err(e)) => return fail("m2_records", format!("M2Bone version {} bytes {:02x?}", version, &buf[..hdr + 3 * trk + 12]), e, "write(parse(bytes)) == bytes".into()), _ => {} }
+        // sequences
+        let mut sb = rng.bytes(68);
+        if round % 2 == 0 { sb[if version <= 256 { 24 } else { 20 }] = 0xFF; sb[if version <= 256 { 25 } else { 21 }] = 0xFF; } // negative frequency
+        if round % 7 == 0 { sb[4] = 0xFF; sb[5] = 0xFF; sb[6] = 0xFF; sb[7] = 0xFF; } // huge start timestamp
+        let s2 = sb.clone();
+        let r = catch(move || -> Result<(), String> {
+            let mut c = std::io::Cursor::new(&s2[..]);
+            let a = M2Animation::parse(&mut c, version).map_err(|e| format!("parse: {}", e))?;
+            let n = c.position() as usize;
+            let mut out = Vec::new();
+            a.write(&mut out, version).map_err(|e| format!("write: {}", e))?;
+            if out != s2[..n] { let d = out.iter().zip(&s2[..n]).position(|(a, b)| a != b).unwrap_or(out.len().min(n)); return Err(format!("rewritten bytes differ at offset {} ({} vs {} bytes)", d, out.len(), n)); }
+            Ok(())
+        });
+        match r { Err(p) => return fail("m2_records", format!("M2Animation version {} bytes {:02x?}", version, sb), format!("panic: {}", p), "round trip".into()),
+                  Ok(Err(e)) => return fail("m2_records", format!("M2Animation version {} bytes {:02x?}", version, sb), e, "write(parse(bytes)) == bytes".into()), _ => {} }
+        // tracks
+        let mut tb = rng.bytes(28); tb[0] = (rng.next() % 4) as u8; tb[1] = 0;
+        if round % 4 == 0 { for b in &mut tb[4..8] { *b = 0; } }
+        let t2 = tb.clone();
+        let r = catch(move || -> Result<(), String> {
+            let mut c = std::io::Cursor::new(&t2[..]);
+            let t = M2Track::<C3Vector>::parse(&mut c, version).map_err(|e| format!("parse: {}", e))?;
+            let n = c.position() as usize;
+            let mut out = Vec::new();
+            t.write(&mut out, version).map_err(|e| format!("write: {}", e))?;
+            if out != t2[..n] { return Err(format!("rewritten bytes differ ({:02x?} vs {:02x?})", out, &t2[..n])); }
+            Ok(())
+        });
+        match r { Err(p) => return fail("m2_records", format!("M2Track version {} bytes {:02x?}", version, tb), format!("panic: {}", p), "round trip".into()),
+                  Ok(Err(e)) => return fail("m2_records", format!("M2Track version {} bytes {:02x?}", version, tb), e, "write(parse(bytes)) == bytes".into()), _ => {} }
+    }
+    none("m2_records", tried)
 }
